@@ -617,17 +617,31 @@ def reversed_input(case):
     return bool(big) and area2(max(big, key=lambda p: abs(area2(p)))) < 0
 
 
-def empty_group_key(case):
-    """the two failure modes caused by an EndType::Polygon group that has no lowest path (all its paths empty)"""
-    if first_polygon_group_empty(case) and reversed_input(case) and any(g['et'] == 0 and any(p for p in g['paths']) for g in case['groups']):
+def empty_group_key(case, res_area2=None, exp_area2=None):
+    """the two failure modes caused by an EndType::Polygon group that has no lowest path (all its paths empty).
+    When the input has the shape of both (vertex-less group in front of clockwise polygons, delta < 0) the result decides:
+    orientation lost = the result is empty or has counter-clockwise outlines (total area >= 0) where clockwise ones are
+    due; otherwise the orientation is right and the later groups were inflated instead of shrunk."""
+    pre_orient = (first_polygon_group_empty(case) and reversed_input(case)
+                  and any(g['et'] == 0 and any(p for p in g['paths']) for g in case['groups']))
+    pre_delta = has_empty_polygon_group_before(case) and case['delta'] < 0
+    if pre_orient and pre_delta and res_area2 is not None:
+        want_neg = (exp_area2 < 0) if exp_area2 is not None else (not case.get('rev'))
+        lost = (res_area2 >= 0) if want_neg else (res_area2 <= 0)
+        return 'offset.orientation-lost.empty-polygon-group-first' if lost else 'offset.delta-abs-leak.empty-polygon-group'
+    if pre_orient:
         return 'offset.orientation-lost.empty-polygon-group-first'
-    if has_empty_polygon_group_before(case) and case['delta'] < 0:
+    if pre_delta:
         return 'offset.delta-abs-leak.empty-polygon-group'
     return None
 
 
-def c06_key(case, mode):
-    k = empty_group_key(case)
+def paths_area2(ps):
+    return sum(area2(list(p)) for p in ps if len(p) >= 3)
+
+
+def c06_key(case, mode, sol=None):
+    k = empty_group_key(case, paths_area2(sol) if sol is not None else None)
     if k:
         return k
     jt = case['groups'][0]['jt']
@@ -720,7 +734,7 @@ def region_eval(ctx, T, rng, cases, prepare, sign_of, key_of, label, pid_kind):
         if bad:
             nviol += 1
             mode, q, v, w = bad
-            viol(ctx, key_of(c, mode),
+            viol(ctx, key_of(c, mode, r['sol']),
                           '%s: point (%s, %s) must be %s by the result but its winding number there is %d (expected %d); '
                           'delta=%s join=%s %s' % (label, q[0] / 2, q[1] / 2, 'covered' if v == 1 else 'uncovered', w, sg if v == 1 else 0,
                                                     c['delta'], JT[c['groups'][0]['jt']], ET[c['groups'][0]['et']]),
@@ -729,7 +743,7 @@ def region_eval(ctx, T, rng, cases, prepare, sign_of, key_of, label, pid_kind):
 
 
 # ----------------------------------------------------------------------------- C07 specification check
-def c07_key(case, mode):
+def c07_key(case, mode, sol=None):
     g = case['groups'][0]
     if g['et'] == 1 and joined_leak_shape(g['paths']):
         return 'offset.endtype-leak.joined-2pt-then-longer'
@@ -792,11 +806,11 @@ def alone_case(case, gi, pi):
 
 
 def locality_key(case, diffs):
-    """classifier of an alone-vs-together difference from the structure of the input"""
+    """classifier of an alone-vs-together difference from the structure of the input (diffs = (expected, actual) rings)"""
     for gi, g in enumerate(case['groups']):
         if g['et'] == 1 and joined_leak_shape(g['paths']):
             return 'offset.endtype-leak.joined-2pt-then-longer'
-    k = empty_group_key(case)
+    k = empty_group_key(case, paths_area2(diffs[1]), paths_area2(diffs[0])) if diffs else empty_group_key(case)
     if k:
         return k
     ets = sorted(set(ET[g['et']].lower() for g in case['groups']))
@@ -861,7 +875,7 @@ def locality_eval(ctx, T, cases, label, pid_kind, key_of=None):
             nbad += 1
             missing = [list(p) for p in exp if p not in got][:3]
             extra = [list(p) for p in got if p not in exp][:3]
-            key = key_of(c) if key_of else locality_key(c, None)
+            key = key_of(c, (exp, got)) if key_of else locality_key(c, (exp, got))
             viol(ctx, key, '%s: offsetting the paths together differs from offsetting each alone although they are far apart '
                           '(delta=%s); paths only in alone-results: %s; only in the joint result: %s'
                           % (label, c['delta'], missing, extra),
